@@ -47,8 +47,12 @@ def jobs(tier, seed):
     for L in (15, 16, 17, 31, 32, 33, 47):
         J.append(product_job(P, f'x86-rt-target-L{L}', G, sc('req', L, prefix=b'GET ', api='parse', cap=1, variant='x86-rt', fixed={i: NOSP for i in range(L)}), bud,
                              f'Request (x86-rt, CPU features symbolic) "GET " + {L} symbolic target bytes and NOTHING after them', family='x86-target', mandatory=True, **kw))
+    NOEOLV = [b for b in range(256) if b not in (9, 10, 13, 32)]
+    for L in (15, 16, 17, 31, 32, 33, 47):
+        J.append(product_job(P, f'x86-rt-value-L{L}', G, sc('resp', L, prefix=b'HTTP/1.1 200 OK\r\nN: v', api='parse', cap=1, variant='x86-rt', fixed={i: NOEOLV for i in range(L)}), bud,
+                             f'Response (x86-rt, CPU features symbolic) start line + "N: v" + {L} symbolic value bytes and NOTHING after them', family='x86-value', mandatory=True, **kw))
     for j in J:
-        if j.name.startswith('x86-rt-target'): j.small = True
+        if j.name.startswith(('x86-rt-target', 'x86-rt-value')): j.small = True
     # scanners of every back end, debug-assertion MIR included
     NOTAB = [b for b in range(256) if b != 9]
     scanners = list(c12.SCANNERS) + [('swar-dbg', 'swar::match_uri_vectored', 'uri', 'swar-dbg'), ('swar-dbg', 'swar::match_header_value_vectored', 'value', 'swar-dbg'),
